@@ -5,7 +5,8 @@ import sys, os, json
 sys.path.insert(0, '/verif/lib')
 
 OPS = {'fld_rel': 1, 'fld_sort': 2, 'fld_params': 3, 'big_rel': 4, 'big_sort': 5, 'sw_rel': 6, 'sw_params': 7,
-       'te_rel': 8, 'te_params': 9, 'gt_rel': 10, 'gt_pair': 11, 'poly_rel': 12, 'gt_params': 13}
+       'te_rel': 8, 'te_params': 9, 'gt_rel': 10, 'gt_pair': 11, 'poly_rel': 12, 'gt_params': 13, 'mvpoly_rel': 14,
+       'pt_decoded_rel': 15}
 
 PARAMS = json.load(open(os.path.join(os.path.dirname(os.path.abspath(__file__)), 'params.json')))
 FIELDS, SW, TE = PARAMS['fields'], PARAMS['sw'], PARAMS['te']
@@ -766,6 +767,268 @@ def gen_poly(rng, n, fname='bls12_381_fr'):
                                    if e[0] >= 100 or not set(e).isdisjoint(range(32, 44)) else '')
 
 
+# ---------------------------------------------------------------- multivariate sparse polynomials
+# Expression codes: coq/C19/MvModel.v.  Operands P Q R = SparsePolynomial::from_coefficients_vec(num_vars, raw terms)
+# with raw terms through SparseTerm::new; f a scalar.  Pairs that denote the SAME polynomial for all operands
+# (all three operands have the same num_vars, see DEFECT-2 below):
+MV_EQ = [(3, 4), (3, 5), (4, 5), (6, 7), (6, 8), (6, 9), (7, 9), (26, 12), (26, 13), (26, 23), (12, 13), (0, 14), (0, 16),
+         (0, 17), (0, 18), (0, 20), (0, 21), (0, 22), (28, 3), (29, 6), (30, 0), (31, 26), (27, 26), (0, 0), (18, 30),
+         (20, 21), (28, 5), (29, 7)]
+MV_EQ_NVMIX = [(3, 4), (3, 5), (4, 5), (6, 7), (6, 8), (6, 9), (28, 3), (29, 6)]   # both sides carry max(num_vars)
+MV_BY_F = {'f0': [(10, 0), (10, 18), (19, 26), (10, 30), (10, 20)], 'f1': [(10, 3), (10, 28), (19, 1), (10, 4)],
+           'fm1': [(10, 6), (10, 29), (10, 9)], 'f2': [(10, 25)], 'frand': [(10, 2), (2, 10)]}
+MV_DIFF = [(0, 1), (3, 6), (0, 15), (0, 3), (15, 16), (3, 25), (12, 0), (26, 0), (10, 0), (19, 0), (1, 15), (14, 1)]
+MV_WHEN_Q_EQ_P = [(6, 26), (7, 26), (8, 26), (9, 26), (0, 1), (14, 1), (29, 26), (22, 1), (12, 6)]
+MV_WHEN_Q_EQ_NEGP = [(3, 26), (4, 26), (5, 26), (28, 26), (15, 1), (25, 1), (13, 3)]
+# Branches of the multivariate operators and the class that reaches them:
+#   Add merge loop: Less / Greater / Equal with non-zero sum / Equal with ZERO sum, either tail ... 'shared' (equal and
+#        opposite coefficients on common monomials), 'equal', 'opposite', 'disjoint' (no common monomial), 'zero_p/q'
+#   the final `retain(!is_zero)` of Add: the ONLY thing that removes (a) cancelled common terms, (b) the zero terms
+#        `+= (f, &q)` creates for f = 0 on monomials of q absent from p ('disjoint', 'shared', 'zero_p' with f0) ...
+#        codes 10 (f0), 18, 19, 24, 27, 30, 31 against p / the empty polynomial: ==, hash, degree, stored terms
+#   from_coefficients_vec: sort, merge duplicates (incl. duplicates summing to zero), drop zeros ... raw flags 'dup',
+#        'dupcancel', 'zcoef', 'unsorted';  SparseTerm::new: drop zero powers, sort, combine ... 'zpow', 'split', 'unordered'
+#   Neg / Sub / -= / += : every scenario;  is_zero (empty || all zero), degree (max over stored terms, 0 if empty)
+MV_MONOS = [(), ((0, 1),), ((1, 1),), ((0, 2),), ((0, 1), (1, 1)), ((2, 1),), ((1, 3),), ((0, 1), (2, 2)), ((1, 2), (3, 1)),
+            ((0, 1), (1, 1), (2, 1)), ((3, 4),), ((0, 5),), ((1, 2),), ((0, 3),), ((2, 2), (3, 2))]
+
+
+def gen_mvpoly(rng, n, fname='bls12_381_fr'):
+    f = FIELDS[fname]
+    p, N = f['params'][0], f['N']
+    H = [head(f), f['params']]
+    toy = p < 100
+
+    def coef():
+        return fp_operand(rng, p, N)[0] % p
+
+    def nzcoef():
+        while True:
+            c = coef()
+            if c:
+                return c
+
+    def monos(nv):
+        return [m for m in MV_MONOS if all(v < nv for v, _ in m)]
+
+    def rand_poly(nv, kmax=5):
+        ms = monos(nv)
+        return {m: nzcoef() for m in rng.sample(ms, rng.randrange(0, min(kmax, len(ms)) + 1))}
+
+    def raw_term(m, nv, flags):
+        """a raw argument of SparseTerm::new denoting the monomial m: variables in any order, a power split over
+        repeated variables, zero powers"""
+        t = []
+        for v, e in m:
+            if e >= 2 and rng.randrange(3) == 0:
+                e1 = rng.randrange(1, e); t += [(v, e1), (v, e - e1)]; flags.add('split')
+            else:
+                t.append((v, e))
+        if rng.randrange(4) == 0:
+            t.insert(rng.randrange(len(t) + 1), (rng.randrange(nv), 0)); flags.add('zpow')
+        if len(t) > 1 and rng.randrange(2):
+            t2 = list(t); rng.shuffle(t2)
+            if t2 != t:
+                flags.add('unordered')
+            t = t2
+        return t
+
+    def raw(nv, poly, flags, extra=()):
+        """raw argument of from_coefficients_vec denoting `poly` (+ the `extra` (c, m) terms, summed in): any order,
+        coefficients split over duplicate monomials, duplicates that cancel, zero coefficients"""
+        ents = []
+        for m, c in poly.items():
+            if rng.randrange(4) == 0:
+                c1 = rng.randrange(p); ents += [(c1, m), ((c - c1) % p, m)]; flags.add('dup')
+            else:
+                ents.append((c, m))
+        ents += list(extra)
+        if rng.randrange(4) == 0:
+            m = rng.choice(monos(nv)); ents.append((0, m)); flags.add('zcoef')
+        if rng.randrange(5) == 0:
+            m = rng.choice(monos(nv)); c = nzcoef(); ents += [(c, m), ((-c) % p, m)]; flags.add('dupcancel')
+        if len(ents) > 1 and rng.randrange(3):
+            rng.shuffle(ents); flags.add('unsorted')
+        ts = [raw_term(m, nv, flags) for _, m in ents]
+        return [[nv], [c for c, _ in ents], [len(t) for t in ts], [v for t in ts for v, _ in t],
+                [e for t in ts for _, e in t]]
+
+    for _ in range(n):
+        nv = rng.choice([1, 2, 3, 4, 4])
+        nvq = nvr = nv
+        sc = rng.randrange(12)
+        extra = []
+        P = rand_poly(nv)
+        Q = rand_poly(nv)
+        R = rand_poly(nv, 3)
+        if sc == 0 and P:
+            Q = dict(P); cls = 'equal'; extra = MV_WHEN_Q_EQ_P
+        elif sc == 1 and P:
+            Q = {m: (-c) % p for m, c in P.items()}; cls = 'opposite'; extra = MV_WHEN_Q_EQ_NEGP
+        elif sc in (2, 3) and P:
+            Q = {m: rng.choice([c, (-c) % p, nzcoef()]) for m, c in P.items() if rng.randrange(4)}
+            for m in rng.sample(monos(nv), rng.randrange(0, 3)):
+                Q.setdefault(m, nzcoef())
+            cls = 'shared'
+        elif sc in (4, 5):
+            ms = monos(nv); rng.shuffle(ms); k = rng.randrange(0, len(ms) + 1); j = rng.randrange(0, k + 1)
+            P = {m: nzcoef() for m in ms[:j][:4]}
+            Q = {m: nzcoef() for m in ms[j:k][:4]}
+            cls = 'disjoint'
+        elif sc == 6:
+            z = rng.randrange(3)
+            if z == 0:
+                P = {}; cls = 'zero_p'
+            elif z == 1:
+                Q = {}; cls = 'zero_q'
+            else:
+                P, Q = {}, {}; cls = 'zero_pq'
+        elif sc == 7:
+            m = rng.choice(monos(nv)); c = nzcoef()
+            P = {m: c}
+            Q = rng.choice([{m: c}, {m: (-c) % p}, {m: nzcoef()}, {rng.choice(monos(nv)): nzcoef()}])
+            cls = 'single_term'
+        elif sc == 8 and P:
+            Q = dict(P); m = rng.choice(sorted(P)); Q[m] = (Q[m] + 1) % p
+            if Q[m] == 0:
+                del Q[m]
+            cls = 'nb_coeff'; extra = [(0, 1)] * 3
+        elif sc == 9 and nv < 4:
+            # operands with different num_vars: only pairs whose two sides carry max(num_vars) (DEFECT-2)
+            nvq = rng.randrange(nv + 1, 5); Q = rand_poly(nvq); cls = 'nvmix'
+        else:
+            cls = 'pair'
+        fk = rng.choice(['f0', 'f0', 'f1', 'fm1', 'f2', 'frand', 'frand'])
+        fs = {'f0': 0, 'f1': 1 % p, 'fm1': p - 1, 'f2': 2 % p, 'frand': coef()}[fk]
+        flags = set()
+        rextra = []
+        t = rng.randrange(10)
+        if cls == 'nvmix':
+            e = rng.choice(MV_EQ_NVMIX); kind = 'same'
+        elif extra and t < 4:
+            e = rng.choice(extra); kind = 'corr'
+        elif t < 5:
+            e = rng.choice(MV_EQ); kind = 'same'
+        elif t < 8:
+            e = rng.choice(MV_BY_F[fk]); kind = 'scaled_' + fk
+            if fk == 'frand':
+                R = dict(P); rextra = [(c * fs % p, m) for m, c in Q.items()]      # R denotes P + f Q
+        else:
+            e = rng.choice(MV_DIFF); kind = 'diff'
+        # DEFECT-2 (NOTES.md): derived Hash feeds num_vars, derived PartialEq ignores it, so equal polynomials with
+        # different num_vars (zero() has 0; a sum has the max) hash differently.  Pairs whose two sides can carry
+        # different num_vars are not generated: code 11 / 19 / 24 (zero()-based) only against each other.
+        pt = [rng.choice([0, 1, p - 1, rng.randrange(p), rng.randrange(p)]) for _ in range(max(nv, nvq, nvr))]
+        yield 'mvpoly_rel', H + [list(e), [fs], pt] + raw(nv, P, flags) + raw(nvq, Q, flags) + raw(nvr, R, flags, rextra), \
+            'mvpoly%s/%s/%s%s' % ('13' if toy else '', cls, kind, flags and '/raw:' + '+'.join(sorted(flags)) or '')
+
+
+# ---------------------------------------------------------------- curve points obtained by deserialization
+def le_bytes(v, n):
+    return [(v >> (8 * i)) & 255 for i in range(n)]
+
+
+def enc_fe(p, coords, flagbits, mask):
+    """Field::serialize_with_flags: every base-prime-field coordinate little-endian; the LAST one is sized for the
+    flag bits, which go into the top bits of the last byte"""
+    out = []
+    for c in coords[:-1]:
+        out += le_bytes(c, (p.bit_length() + 7) // 8)
+    b = le_bytes(coords[-1], (p.bit_length() + flagbits + 7) // 8)
+    b[-1] |= mask
+    return out + b
+
+
+def fe_le(K, a):
+    """a <= -a in the order of the field (extensions: last coordinate first)"""
+    key = lambda v: tuple(reversed(v))
+    return key(a) <= key(K.neg(a))
+
+
+# Branches of deserialize_with_mode and the class that reaches them:
+#   SW compressed: infinity flag (x ignored) / get_ys_from_x + sign selection ...... 'inf_*', 'canon', 'other_sign'
+#   SW uncompressed: x, (y, flags); flags.is_infinity() -> identity, else new_unchecked(x, y) (the sign bit is NOT
+#        looked at) ................................................................. 'inf_nonblank*', 'other_sign'
+#   Validate::Yes -> check() (on curve, subgroup) / Validate::No .................... both modes on every class
+#   y = 0 (both roots equal, either sign flag decodes to the same point) ............ 'y0' points of the toy curves
+#   TE compressed: x recovered from y, sign flag; x = 0 (both flags give the same point: (0, 1) and (0, -1))
+#   flag byte with BOTH bits set (rejected by SWFlags::from_u8) ...................... 'inf_neg' (Err on both sides)
+def gen_decoded(rng, c, r, n, model):
+    p, d = c['params'][0], DEG[c['kind']]
+    K = Fld(c['params'])
+    sw = model == 0
+    H = [[c['cfg'], c['kind'], c['N'], c.get('var', 0), model], c['params'], c['a'], c['b'] if sw else c['d'], [r]]
+    G = (c['G'][:d], c['G'][d:])
+    if sw:
+        add = lambda P, Q: sw_add_aff(K, c['a'], P, Q); zero = None
+        pool = [(l, None if P is None else (P[:d], P[d:])) for l, P in sw_raw_points(rng, c, r, 2)]
+    else:
+        add = lambda P, Q: te_add_aff(K, c['a'], c['d'], P, Q); zero = ([0], [1])
+        pool = [(l, zero if P is None else (P[:d], P[d:])) for l, P in te_raw_points(rng, c, r, 2)]
+    pool = [(('raw:' + l) if l != 'id' else 'id', P) for l, P in pool]
+    for s in [1, 2, 3, r - 1, rng.randrange(1, r), rng.randrange(1, r)]:
+        pool.append(('sub', smul(add, zero, s % r, G)))
+    junk = lambda: [rng.choice([0, 1, rng.randrange(1 << (8 * ((p.bit_length() - 1) // 8)))]) for _ in range(d)]
+
+    def enc_sw(P, comp, how):
+        if P is None:
+            x, y, mask = [0] * d, [0] * d, 64
+        else:
+            x, y = P
+            mask = 0 if fe_le(K, y) else 128
+        if how == 'other_sign' and P is not None:
+            mask ^= 128
+        elif how == 'inf':                       # infinity flag over whatever the coordinate bytes are
+            mask = 64
+        elif how == 'inf_neg':
+            mask = 192
+        if comp:
+            return enc_fe(p, x, 2, mask)
+        return enc_fe(p, x, 0, 0) + enc_fe(p, y, 2, mask)
+
+    def enc_te(P, comp, how):
+        x, y = P
+        mask = 0 if fe_le(K, x) else 128
+        if how == 'other_sign':
+            mask ^= 128
+        if comp:
+            return enc_fe(p, y, 1, mask)
+        return enc_fe(p, x, 0, 0) + enc_fe(p, y, 0, 0)
+
+    enc = enc_sw if sw else enc_te
+    for _ in range(n):
+        (l1, P1), (l2, P2) = rng.choice(pool), rng.choice(pool)
+        c1, v1, c2, v2 = (rng.randrange(2) for _ in range(4))
+        k = rng.randrange(10 if sw else 6)
+        if k == 0:
+            P2, l2 = P1, l1; c1, c2 = 1, 0; h1 = h2 = 'canon'; cls = 'canon_c_vs_u'
+        elif k in (1, 2):
+            P2, l2 = P1, l1; h1, h2 = 'canon', 'other_sign'; c2 = rng.choice([c2, 1]); cls = 'other_sign'
+        elif k == 3:
+            h1 = h2 = 'canon'; cls = 'two_points'
+        elif k == 4:
+            id_ = None if sw else zero
+            P1, l1 = id_, 'id'; h1, h2 = 'canon', rng.choice(['canon', 'other_sign']); cls = 'id_vs_point'
+        elif k == 5:
+            P2, l2 = P1, l1; h1 = h2 = 'canon'; c2 = c1; v1, v2 = 0, 1; cls = 'validate_modes'
+        elif k in (6, 7):
+            # the identity: canonical (blank) encoding against the infinity flag over NON-blank coordinate bytes
+            # (the coordinates of a point, or junk below 2^(8 (len - 1)) <= p)
+            Pj = P2 if (P2 is not None and rng.randrange(2)) else (junk(), junk())
+            P1, l1, P2, l2 = None, 'id', Pj, 'nonblank'; h1, h2 = 'canon', 'inf'; cls = 'inf_blank_vs_nonblank'
+            if rng.randrange(3) == 0:
+                P1, l1 = (junk(), junk()), 'nonblank'; h1 = 'inf'; cls = 'inf_nonblank_both'
+        elif k == 8:
+            # a point against the infinity flag over ITS coordinates
+            if P1 is None:
+                P1 = (junk(), junk())
+            P2, l2 = P1, 'nonblank'; h1, h2 = 'canon', 'inf'; c2 = rng.choice([c2, 0]); cls = 'point_vs_inf_same_bytes'
+        else:
+            h1, h2 = 'canon', 'inf_neg'; cls = 'inf_neg'
+        yield 'pt_decoded_rel', H + [[c1, v1, c2, v2], enc(P1, c1, h1), enc(P2, c2, h2)], \
+            'dec/%s/%s/%s' % (c['name'], cls, '+'.join(sorted({l1, l2})))
+
+
 def gen_gt(rng, n):
     f = FIELDS['bls12_381_fq12']
     p, N = f['params'][0], f['N']
@@ -878,6 +1141,16 @@ def gen(rng, tier):
     yield from gen_gt_pair(rng, 48 * (1 if tier == 'quick' else 8))
     yield from gen_poly(rng, 1800 * scale)
     yield from gen_poly(rng, 1200 * scale, 'f13')
+    yield from gen_mvpoly(rng, 1200 * scale)
+    yield from gen_mvpoly(rng, 800 * scale, 'f13')
+    toy_r = {'toy_sw13': 19, 'toy_sw13b': 5, 'toy_sw13c': 3, 'toy_te13': 5}
+    for name, c in sorted(SW.items()):
+        c = dict(c, name=name, cofactor_gt1=name in ('bls12_381_g1', 'bls12_381_g2'))
+        r = toy_r[name] if name in toy_r else FIELDS[c['fr']]['params'][0]
+        yield from gen_decoded(rng, c, r, (150 if name in toy_r else 40) * scale, 0)
+    for name, c in sorted(TE.items()):
+        c = dict(c, name=name)
+        yield from gen_decoded(rng, c, toy_r.get(name, JUBJUB_R), (150 if name in toy_r else 40) * scale, 1)
 
 
 def nontrivial(case, out):
@@ -892,6 +1165,8 @@ def xcheck_ok(case):
         return case['args'][1][0] < 1000
     if op == 'gt_pair':
         return False            # 255-bit exponentiation in Fq12
+    if op == 'pt_decoded_rel':
+        return case['args'][1][0] < 1000     # square roots / subgroup checks on 255..381-bit Z: toy curves only
     if op in ('fld_rel', 'fld_sort', 'gt_rel', 'fld_params', 'gt_params'):
         kind, N = case['args'][0][1], case['args'][0][2]
         if kind >= 6:
